@@ -55,7 +55,8 @@ type deferred struct {
 type frame struct {
 	in        *Interp
 	fn        *ssa.Function
-	env       map[ssa.Value]Value
+	env       []Value
+	meta      *fnMeta
 	block     *ssa.BasicBlock
 	prev      *ssa.BasicBlock
 	defers    []*deferred
@@ -144,8 +145,8 @@ func (fr *frame) get(key ssa.Value) Value {
 		}
 		panic("free var not found")
 	}
-	if r, ok := fr.env[key]; ok {
-		return r
+	if i, ok := fr.meta.idx[key]; ok {
+		return fr.env[i]
 	}
 	panic(fmt.Sprintf("get: no value for %T: %v (%s)", key, key.Name(), fr.fn))
 }
@@ -228,30 +229,18 @@ func fnPkgPath(fn *ssa.Function) string {
 }
 
 func (in *Interp) callFunction(caller *frame, site ssa.Instruction, fn *ssa.Function, args []Value, env []Value) Value {
-	name := fn.String()
-	if fn.Origin() != nil {
-		name = fn.Origin().String()
+	m := in.P.meta(fn)
+	if m.intr != nil {
+		return m.intr(in, caller, site, fn, args)
 	}
-	if h, ok := intrinsics[name]; ok {
-		return h(in, caller, site, fn, args)
-	}
-	if strings.HasPrefix(fn.Name(), "vp") && fn.Pkg != nil {
-		if h, ok := harnessIntrinsics[fn.Name()]; ok {
-			return h(in, caller, site, fn, args)
-		}
-	}
-	path := fnPkgPath(fn)
-	if fn.Name() == "init" && fn.Synthetic != "" && !in.P.interpretedPkg(path) {
+	if m.skipInit {
 		return nil // foreign package initialisers are not executed
 	}
-	if fn.Blocks == nil || (path != "" && !in.P.allowedPkg(path)) {
+	if !m.interpret {
 		if in.initing {
-			return Opaque{"result of " + name}
+			return Opaque{"result of " + m.name}
 		}
-		in.unsupported("external function %s", name)
-	}
-	if path == "go.etcd.io/raft/v3/raftpb" && fn.Name() == "init" {
-		return nil
+		in.unsupported("external function %s", m.name)
 	}
 	return in.callSSA(caller, site, fn, args, env)
 }
@@ -265,21 +254,25 @@ func (in *Interp) callSSA(caller *frame, site ssa.Instruction, fn *ssa.Function,
 	}
 	in.stack = append(in.stack, fn)
 	in.sites = append(in.sites, site)
-	in.run.noteFunction(fn)
+	in.run.noteFunction(in.P.meta(fn).name)
 	defer func() {
 		in.depth--
 		in.stack = in.stack[:len(in.stack)-1]
 		in.sites = in.sites[:len(in.sites)-1]
 	}()
-	fr := &frame{in: in, fn: fn, caller: caller, freeVars: env}
-	fr.env = make(map[ssa.Value]Value, 16)
+	meta := in.P.meta(fn)
+	if meta.idx == nil {
+		in.unsupported("function %s has no interpretable body", meta.name)
+	}
+	fr := &frame{in: in, fn: fn, caller: caller, freeVars: env, meta: meta}
+	fr.env = make([]Value, meta.nvals)
 	fr.block = fn.Blocks[0]
 	for i, p := range fn.Params {
-		fr.env[p] = args[i]
+		fr.env[fr.meta.idx[p]] = args[i]
 	}
 	for _, l := range fn.Locals {
 		cell := new(Value)
-		fr.env[l] = cell
+		fr.env[fr.meta.idx[l]] = cell
 	}
 	for fr.block != nil {
 		fr.runBlocks()
@@ -375,7 +368,7 @@ func (fr *frame) step() bool {
 			vals = append(vals, fr.get(phi.Edges[idx]))
 		}
 		for k, v := range vals {
-			fr.env[b.Instrs[k].(*ssa.Phi)] = v
+			fr.env[fr.meta.idx[b.Instrs[k].(*ssa.Phi)]] = v
 		}
 	}
 	for ; i < len(b.Instrs); i++ {
@@ -423,24 +416,24 @@ func (fr *frame) visit(instr ssa.Instruction) cont {
 	switch instr := instr.(type) {
 	case *ssa.DebugRef:
 	case *ssa.UnOp:
-		fr.env[instr] = in.unop(instr, fr.get(instr.X))
+		fr.env[fr.meta.idx[instr]] = in.unop(instr, fr.get(instr.X))
 	case *ssa.BinOp:
-		fr.env[instr] = in.binop(instr, instr.Op, instr.X.Type(), fr.get(instr.X), fr.get(instr.Y))
+		fr.env[fr.meta.idx[instr]] = in.binop(instr, instr.Op, instr.X.Type(), fr.get(instr.X), fr.get(instr.Y))
 	case *ssa.Call:
 		fn, args := fr.prepareCall(instr, &instr.Call)
-		fr.env[instr] = in.call(fr, instr, fn, args)
+		fr.env[fr.meta.idx[instr]] = in.call(fr, instr, fn, args)
 	case *ssa.ChangeInterface:
-		fr.env[instr] = fr.get(instr.X)
+		fr.env[fr.meta.idx[instr]] = fr.get(instr.X)
 	case *ssa.ChangeType:
-		fr.env[instr] = fr.get(instr.X)
+		fr.env[fr.meta.idx[instr]] = fr.get(instr.X)
 	case *ssa.Convert:
-		fr.env[instr] = in.conv(instr, instr.Type(), instr.X.Type(), fr.get(instr.X))
+		fr.env[fr.meta.idx[instr]] = in.conv(instr, instr.Type(), instr.X.Type(), fr.get(instr.X))
 	case *ssa.MakeInterface:
-		fr.env[instr] = Iface{T: instr.X.Type(), V: fr.get(instr.X)}
+		fr.env[fr.meta.idx[instr]] = Iface{T: instr.X.Type(), V: fr.get(instr.X)}
 	case *ssa.Extract:
-		fr.env[instr] = fr.get(instr.Tuple).(Tuple)[instr.Index]
+		fr.env[fr.meta.idx[instr]] = fr.get(instr.Tuple).(Tuple)[instr.Index]
 	case *ssa.Slice:
-		fr.env[instr] = in.sliceOp(instr, fr.get(instr.X), fr.get(instr.Low), fr.get(instr.High), fr.get(instr.Max))
+		fr.env[fr.meta.idx[instr]] = in.sliceOp(instr, fr.get(instr.X), fr.get(instr.Low), fr.get(instr.High), fr.get(instr.Max))
 	case *ssa.Return:
 		switch len(instr.Results) {
 		case 0:
@@ -494,9 +487,9 @@ func (fr *frame) visit(instr ssa.Instruction) cont {
 		var addr Ptr
 		if instr.Heap {
 			addr = new(Value)
-			fr.env[instr] = addr
+			fr.env[fr.meta.idx[instr]] = addr
 		} else {
-			addr = fr.env[instr].(Ptr)
+			addr = fr.env[fr.meta.idx[instr]].(Ptr)
 		}
 		*addr = in.zero(instr.Type().Underlying().(*types.Pointer).Elem())
 	case *ssa.MakeSlice:
@@ -510,21 +503,21 @@ func (fr *frame) visit(instr ssa.Instruction) cont {
 		for i := range arr {
 			arr[i] = in.zero(et)
 		}
-		fr.env[instr] = Slice{Arr: arr[:n]}
+		fr.env[fr.meta.idx[instr]] = Slice{Arr: arr[:n]}
 	case *ssa.MakeMap:
-		fr.env[instr] = &Map{}
+		fr.env[fr.meta.idx[instr]] = &Map{}
 	case *ssa.Range:
-		fr.env[instr] = in.rangeIter(instr, fr.get(instr.X))
+		fr.env[fr.meta.idx[instr]] = in.rangeIter(instr, fr.get(instr.X))
 	case *ssa.Next:
-		fr.env[instr] = fr.get(instr.Iter).(*mapIter).next(in, instr)
+		fr.env[fr.meta.idx[instr]] = fr.get(instr.Iter).(*mapIter).next(in, instr)
 	case *ssa.FieldAddr:
 		p := fr.get(instr.X).(Ptr)
 		if p == nil {
 			in.goPanic(instr, "nil pointer dereference (field address)")
 		}
-		fr.env[instr] = &(*p).(Struct)[instr.Field]
+		fr.env[fr.meta.idx[instr]] = &(*p).(Struct)[instr.Field]
 	case *ssa.Field:
-		fr.env[instr] = copyVal(fr.get(instr.X).(Struct)[instr.Field])
+		fr.env[fr.meta.idx[instr]] = copyVal(fr.get(instr.X).(Struct)[instr.Field])
 	case *ssa.IndexAddr:
 		x := fr.get(instr.X)
 		var arr []Value
@@ -542,21 +535,21 @@ func (fr *frame) visit(instr ssa.Instruction) cont {
 			panic(fmt.Sprintf("IndexAddr on %T", x))
 		}
 		i := in.indexInto(instr, fr.get(instr.Index).(*sym.Term), isSigned(instr.Index.Type()), len(arr))
-		fr.env[instr] = &arr[i]
+		fr.env[fr.meta.idx[instr]] = &arr[i]
 	case *ssa.Index:
 		x := fr.get(instr.X)
 		switch x := x.(type) {
 		case Array:
 			i := in.indexInto(instr, fr.get(instr.Index).(*sym.Term), isSigned(instr.Index.Type()), len(x))
-			fr.env[instr] = copyVal(x[i])
+			fr.env[fr.meta.idx[instr]] = copyVal(x[i])
 		case string:
 			i := in.indexInto(instr, fr.get(instr.Index).(*sym.Term), isSigned(instr.Index.Type()), len(x))
-			fr.env[instr] = in.ctx.Const(uint64(x[i]), 8)
+			fr.env[fr.meta.idx[instr]] = in.ctx.Const(uint64(x[i]), 8)
 		default:
 			panic(fmt.Sprintf("Index on %T", x))
 		}
 	case *ssa.Lookup:
-		fr.env[instr] = in.lookup(instr, fr.get(instr.X), fr.get(instr.Index))
+		fr.env[fr.meta.idx[instr]] = in.lookup(instr, fr.get(instr.X), fr.get(instr.Index))
 	case *ssa.MapUpdate:
 		m := fr.get(instr.Map).(*Map)
 		if m == nil {
@@ -564,13 +557,13 @@ func (fr *frame) visit(instr ssa.Instruction) cont {
 		}
 		in.mapUpdate(instr, m, fr.get(instr.Key), fr.get(instr.Value))
 	case *ssa.TypeAssert:
-		fr.env[instr] = in.typeAssert(instr, fr.get(instr.X).(Iface))
+		fr.env[fr.meta.idx[instr]] = in.typeAssert(instr, fr.get(instr.X).(Iface))
 	case *ssa.MakeClosure:
 		var bindings []Value
 		for _, b := range instr.Bindings {
 			bindings = append(bindings, fr.get(b))
 		}
-		fr.env[instr] = &Closure{Fn: instr.Fn.(*ssa.Function), Env: bindings}
+		fr.env[fr.meta.idx[instr]] = &Closure{Fn: instr.Fn.(*ssa.Function), Env: bindings}
 	case *ssa.SliceToArrayPointer:
 		in.unsupported("SliceToArrayPointer")
 	default:
